@@ -21,6 +21,11 @@ PChain == << [body |-> <<Call(2, 0, "k1", FALSE), Res(2)>>],
 \* an element whose body returns something that cannot be stored: in a batch slot, caught and uncaught by a caller
 PBad == << [body |-> <<Batch(2, <<0, 1>>, "inherit", FALSE, FALSE), Call(2, 0, "inherit", TRUE), Call(2, 1, "k1", FALSE)>>],
            [body |-> <<Res(1), Bad(0)>>] >>
-MCProgs == {PFib, PBatch, PRaise, PChain, PBad}
+\* inner calls and batches made through ignore_result() (the caller sees None unless the callee failed) and force_local()
+Mod(s, m) == [x \in DOMAIN s \cup {"mod"} |-> IF x = "mod" THEN m ELSE s[x]]
+PMods == << [body |-> <<Mod(Call(2, 0, "inherit", TRUE), "ignore"), Mod(Batch(2, <<0, 1>>, "k1", FALSE, FALSE), "ignore"),
+                        Mod(Call(2, 1, "inherit", FALSE), "local")>>],
+            [body |-> <<Res(1), Raise(0)>>] >>
+MCProgs == {PFib, PBatch, PRaise, PChain, PBad, PMods}
 MCBatchArgs == {<<>>, <<0>>, <<1, 1>>, <<1, 0>>}
 ====
